@@ -47,6 +47,10 @@ def spec_text(sp, full=False):
         for c, ents in groups.items():
             head = f'{kind}("{c}", ' if c else f"{kind}("
             lines.append(head + ", ".join(f"{n}={L.render(v, full)}" for n, v in ents) + ")")
+    # the same declaration repeated in another component's block (each component then owns a copy of the atom)
+    for kind, n, c in sp.get("redeclare") or []:
+        v = dict(sp["params"] if kind == "parameters" else sp["states"])[n]
+        lines.append(f'{kind}("{c}", {n}={L.render(v, full)})')
     assigns = dict(sp["assigns"])
     order = sp.get("order") or [n for n, _ in sp["assigns"]]
     cur = None
@@ -76,6 +80,7 @@ class Ref:
         self.state_defaults = {n: ev.ev(v)[0] for n, v in sp["states"]}
         self.param_defaults = {n: ev.ev(v)[0] for n, v in sp["params"]}
         self.missing = sp.get("missing", [])
+        self.param_slots = len(self.params)  # a parameter declared in the blocks of two components is one parameter
 
     def used_names(self):
         u = set()
@@ -307,7 +312,7 @@ def check_module(ref, mod, res, ID, functions, opts, tag, fail, pts=None, dts=(0
         if idx and sorted(idx.values()) != list(range(len(idx))):
             fail(f"{ID}|{backend}|{kind}_index|not-a-bijection", f"{kind} index {idx} is not a bijection onto 0..n-1", {"index": idx})
             return
-    ns, npar = len(ref.states), len(ref.params)
+    ns, npar = len(ref.states), ref.param_slots
     pts = pts if pts is not None else model_grid(ref)
     bad = {}
     vals_seen = set()
@@ -549,6 +554,51 @@ def e3_specs(tier, variants=True, deep=False):
     return out
 
 
+OPTION_SETS = (
+    {"delta": 0.5}, {"delta": 2.0 ** -10}, {"delta": 0.0},
+    {"delta": 0.5, "scheme": ["hybrid_rush_larsen", "explicit_euler", "generalized_rush_larsen"]},
+    {"delta": 0.5, "scheme": ["explicit_euler", "generalized_rush_larsen"]},
+    {"delta": 0.5, "remove_unused": True},
+)
+
+
+def option_items(ID):
+    """get_code keyword combinations (non-default delta, scheme list orders / aliases, remove_unused) x a few rate models: the by-name
+    module oracle with the reference formulas evaluated under the same options"""
+    want = ("rate|x**2", "rate|gate", "rate|cos(x)/p", "rate|fhn", "rate|p-abs(x)")
+    rs = dict(rate_specs())
+    its = []
+    for key in want:
+        for i, o in enumerate(OPTION_SETS):
+            its.append({"key": f"options|{key}|{i}", "kind": "options", "specs": [[f"options|{key}|{i}", rs[key]]], "opts": dict(o),
+                        "sample": {"rate": key, "options": dict(o)}})
+    return its
+
+
+def run_option_item(item, res, ID, backends):
+    o = dict(item["opts"])
+    o.setdefault("scheme", list(SCHEMES))
+    sp = item["specs"][0][1]
+    o.setdefault("stiff_states", [Ref(sp).states[0]])
+    functions = ("rhs", "monitor_values") + tuple(o["scheme"])
+    run_model_item(item, res, ID, backends=backends, functions=functions, opts=o)
+
+
+def redeclared_specs():
+    """a parameter declared identically in the `parameters(...)` blocks of two components (accepted by the loader): it is one parameter with
+    one slot, and every generated function reads the slot that `parameter_index` / the `parameter` dict names (first / middle / last
+    position in the name order)"""
+    n, v = L.num, L.var
+    out = []
+    for nm in ("F", "a", "z"):
+        comp = {"m": "Na", "k": "K", nm: "Na", "g": "Na", "h": "K", "dm_dt": "Na", "dk_dt": "K", "i": "K"}
+        sp = spec([("m", n("0.1")), ("k", n("0.3"))], [(nm, n("96.5")), ("g", n("1.0")), ("h", n("2.0"))],
+                  [("dm_dt", L.bin_("-", L.bin_("*", v("g"), v(nm)), v("m"))), ("i", L.bin_("*", v(nm), v("h"))), ("dk_dt", L.bin_("-", L.bin_("*", v("i"), v("k")), v("m")))],
+                  comp=comp, extra={"redeclare": [["parameters", nm, "K"]]})
+        out.append((f"redecl|parameter-{nm}", sp))
+    return out
+
+
 def model_items(tier, ID, variants=True, group=12, deep=False):
     specs = degenerate_specs() + e3_specs(tier, variants, deep=deep)
     items = []
@@ -670,7 +720,32 @@ def degenerate_specs():
         ("deg|derivative-only-monitored", spec([("x", n("1.0")), ("y", n("2.0"))], [("p", n("0.5"))],
                                                [("dx_dt", L.bin_("-", L.bin_("*", v("p"), v("y")), v("x"))), ("i_tot", L.bin_("*", L.neg(v("p")), v("dx_dt"))),
                                                 ("dy_dt", L.bin_("-", v("x"), v("y")))])),
+        # identifiers that are reserved words of a target language (printed with a suffix inside function bodies, looked up by their declared name)
+        ("deg|reserved-words", spec([("lambda", n("1.0")), ("int", n("2.0"))], [("is", n("0.5")), ("double", n("1.5"))],
+                                    [("in", L.bin_("*", v("is"), v("lambda"))), ("float", L.bin_("+", v("double"), v("int"))),
+                                     ("dlambda_dt", L.bin_("-", v("in"), v("lambda"))), ("dint_dt", L.bin_("-", v("float"), L.bin_("*", v("int"), v("is"))))])),
+        # a state that no expression reads (pure accumulator), first / last in the name order
+        ("deg|unread-state-first", spec([("a", n("0.0")), ("x", n("1.0")), ("y", n("2.0"))], [("p", n("0.5"))],
+                                        [("da_dt", L.bin_("*", v("p"), v("y"))), ("dx_dt", L.bin_("-", v("y"), v("x"))), ("dy_dt", L.bin_("*", L.neg(v("x")), v("y")))])),
+        ("deg|unread-state-last", spec([("x", n("1.0")), ("y", n("2.0")), ("z", n("0.0"))], [("p", n("0.5"))],
+                                       [("dx_dt", L.bin_("-", v("y"), v("x"))), ("i", L.bin_("*", v("x"), v("p"))), ("dy_dt", L.bin_("*", L.neg(v("i")), v("y"))), ("dz_dt", L.bin_("+", v("i"), v("y")))])),
+        # explicit time dependence next to several other dependencies (forcing term), `time` and `t` both used
+        ("deg|time-dependent", spec([("x", n("1.0")), ("y", n("2.0")), ("z", n("0.5"))], [("a", n("0.5")), ("w", n("1.5"))],
+                                    [("dx_dt", L.bin_("-", L.bin_("+", L.bin_("*", v("a"), L.call("sin", L.bin_("*", v("w"), v("time")))), L.bin_("*", v("y"), v("z"))), v("x"))),
+                                     ("i", L.bin_("*", L.bin_("*", v("a"), v("t")), v("z"))), ("dy_dt", L.bin_("*", L.neg(v("a")), v("y"))),
+                                     ("dz_dt", L.bin_("+", L.bin_("*", v("w"), L.bin_("-", v("x"), v("z"))), v("i")))])),
         ("deg|long-names", spec([("membrane_potential_of_the_cell", n("1.0"))], [("a_rather_long_parameter_name_0123456789", n("0.5"))],
                                 [("dmembrane_potential_of_the_cell_dt", L.bin_("*", L.neg(v("a_rather_long_parameter_name_0123456789")), v("membrane_potential_of_the_cell")))])),
     ]
+    # long flat sums / products (a total current with many contributions): 12, 60 and 120 terms, every term varying with the states
+    import functools
+    for nterm in (12, 60, 120):
+        terms = [L.bin_("*", n(str(k + 1)), v("x" if k % 2 == 0 else "y")) if k % 3 else L.bin_("*", v("x"), v("y")) for k in range(nterm)]
+        total = functools.reduce(lambda a_, b_: L.bin_("+", a_, b_), terms)
+        out.append((f"deg|long-sum-{nterm}", spec([("x", n("1.0")), ("y", n("2.0"))], [("p", n("0.5"))],
+                                                  [("i_tot", total), ("dx_dt", L.bin_("-", L.bin_("*", v("p"), v("i_tot")), v("x"))), ("dy_dt", L.bin_("-", v("x"), v("y")))])))
+    fac = [L.bin_("+", n("1"), L.bin_("*", n(f"0.{k + 1:02d}"), v("x" if k % 2 else "y"))) for k in range(40)]
+    out.append(("deg|long-product-40", spec([("x", n("1.0")), ("y", n("2.0"))], [("p", n("0.5"))],
+                                            [("g", functools.reduce(lambda a_, b_: L.bin_("*", a_, b_), fac)), ("dx_dt", L.bin_("-", v("g"), v("x"))), ("dy_dt", L.bin_("-", L.bin_("*", v("p"), v("x")), v("y")))])))
+    out += redeclared_specs()
     return out
